@@ -23,8 +23,21 @@ def run(ctx):
             if l.startswith('{"k":"reset"'): hist += 1
             if nq == 5 and len(ctx.samples) < 1 and l.startswith('{"k":"q"'): ctx.samples.append(json.loads(l))
     ctx.tlc_traces("Trace_C16", outs)
-    ctx.traces = hist; ctx.evaluations = n
+    # order independence over the whole discrete grid: three passes in different orders plus immediate repetition, per entry point
+    sw = []; cells = 0
+    for cfgname in ("A", "B"):
+        b = ctx.build("plain", cfgname); exe = ctx.harness(b)
+        def sweep(i):
+            out = os.path.join(ctx.scratch, "sweep%s.%02d.ndjson" % (cfgname, i)); ctx.run_harness(exe, ["c16s", i, NCPU], out, timeout=3000); return out
+        with cf.ThreadPoolExecutor(max_workers=NCPU) as ex: sw += list(ex.map(sweep, range(NCPU)))
+    allsw = os.path.join(ctx.scratch, "sweep.all.ndjson")
+    with open(allsw, "w") as f:
+        for o in sw:
+            for l in open(o): f.write(l); cells += json.loads(l)["cells"]
+    ctx.tlc_traces("Trace_C16s", [allsw])
+    ctx.traces = hist; ctx.evaluations = n + 5 * cells
     return verdict(ctx, "model_checking", {
         "distinct_nontrivial": nq,
-        "rule": "MC_C16: every implementation respecting the frame table satisfies the stated property (3 action properties, exhaustive over abstract values). Conformance: %d seeded histories of %d operations each over the whole API (62%% numeric entry points of the generated API table with valid and failing arguments, parser, NIST / radionuclide / symbol lookups, crystal lookups and diffraction, refractive index, error objects kept across calls, user crystal arrays, explicit insertions into the built-in collection, deprecated no-ops, XRayInit), both data configurations; every query is repeated in a pristine process (zygote forked before the first library call) and compared bit for bit (status, code, value and message digest); after every operation the digests of all data tables and of the built-in collection, LC_ALL, cwd, stderr byte count and the held error objects are compared by TLC against the frame conditions. non-trivial = queries compared with a fresh process." % (hist, ln),
+        "order_sweep_cells": cells,
+        "rule": "Order sweep: every cell of the discrete grid of every numeric entry point (Z -1..100 x every macro x 3 energies x 4 strings: %d cells, both data configurations) evaluated in ascending order, descending order, a seeded shuffle and twice in a row; all five outcomes (value bits, error, code, message) must coincide. " % cells + "MC_C16: every implementation respecting the frame table satisfies the stated property (3 action properties, exhaustive over abstract values). Conformance: %d seeded histories of %d operations each over the whole API (62%% numeric entry points of the generated API table with valid and failing arguments, parser, NIST / radionuclide / symbol lookups, crystal lookups and diffraction, refractive index, error objects kept across calls, user crystal arrays, explicit insertions into the built-in collection, deprecated no-ops, XRayInit), both data configurations; every query is repeated in a pristine process (zygote forked before the first library call) and compared bit for bit (status, code, value and message digest); after every operation the digests of all data tables and of the built-in collection, LC_ALL, cwd, stderr byte count and the held error objects are compared by TLC against the frame conditions. non-trivial = queries compared with a fresh process." % (hist, ln),
     }, ["table digest = 64-bit word hash over every array declared in xrayglob.h (objects are linked statically)", "process starts in LC_ALL=C.utf8 (no other non-C locale exists in this image)"])
